@@ -58,6 +58,7 @@ def attach(ctx):
     ctx.submitted_choice = {}
     ctx.last_offer = None
     ctx.env_limit = None
+    ctx.solver_chaos_active = False
     ctx.extra_boundary.append(closed_loop_boundary)
     wrap_policy(ctx)
 
